@@ -199,7 +199,9 @@ Prop2 == {Un("not", a) : a \in Prop1}
 AliasExprs == Prop2 \cup {Un("not", a) : a \in {t \in Prop2 : t.k = "un"}}
 
 (* ---- a this-rooted and an alias-rooted reference in every child slot of every node kind ---- *)
-SlotRefs == {Own("x"), Fld(VarR("@A"), "n"), Fld(Fld(VarR("@A"), "m"), "n"), Idx(Fld(VarR("@A"), "ns"), NumA("0")), Fld(Own("m"), "n")}
+SlotRefs == {Own("x"), Fld(VarR("@A"), "n"), Fld(Fld(VarR("@A"), "m"), "n"), Idx(Fld(VarR("@A"), "ns"), NumA("0")), Fld(Own("m"), "n"),
+             \* the substituted reference sits in an index BELOW a field access whose root is the other kind of reference
+             Fld(Idx(Own("zs"), Fld(VarR("@A"), "i")), "y"), Fld(Idx(Fld(VarR("@C"), "zs"), Own("i")), "y")}
 SlotNum(r) ==
   { r, Un("-", r), Bn("+", r, NumA("1")), Bn("-", NumA("1"), r), Bn("*", r, r),
     Call("abs", r), Call("abs", Bn("+", r, NumA("1"))),
@@ -370,6 +372,12 @@ Clauses == {Bn(o, l1, l2) : o \in {"or", "and", "implies"}, l1 \in Lits, l2 \in 
 Chain3(o, x, y, z) == Bn(o, Bn(o, x, y), z)
 Resolve == UNION {{Chain3(o, l1, l2, c), Chain3(o, l1, c, l2), Chain3(o, c, l1, l2), Bn(o, l1, Bn(o, l2, c))} :
                       o \in {"and", "or"}, l1 \in Lits, l2 \in Lits, c \in Clauses}
+(* ---- negations of two-level propositional terms (what a splitting or refactoring rule sees under a `not`) ---- *)
+PAtoms == {Own("p"), Own("q"), Fld(VarR("@A"), "b")}
+PLevel1 == PAtoms \cup {Bn(o, a, b) : o \in LogicOps, a \in PAtoms, b \in PAtoms} \cup {Un("not", a) : a \in PAtoms}
+NegBool == {Un("not", Bn(o, a, b)) : o \in LogicOps, a \in PLevel1, b \in PAtoms}
+           \cup {Un("not", Bn(o, a, b)) : o \in LogicOps, a \in PAtoms, b \in PLevel1}
+           \cup {Qn("forall", "k", Own("xs"), Un("not", Bn("implies", Bn(o, Bn(">", K, NumA("0")), a), b))) : o \in LogicOps, a \in PAtoms, b \in PAtoms}
 RandTerms == {IF i % 3 = 0 THEN RNum(RandDepth) ELSE RBool(RandDepth) : i \in 1..RandN}
 
 Members ==
@@ -393,6 +401,7 @@ Members ==
     [] Family = "foldidx" -> FoldIdx
     [] Family = "cancel"  -> Cancel
     [] Family = "resolve" -> Resolve
+    [] Family = "negbool" -> NegBool
     [] OTHER -> {}
 
 TInit == cst \in Members
